@@ -148,6 +148,15 @@ Definition recv (W : nat) (lease : bool) (s : rstate) (w : wire) : rstate * list
            else dispatch W lease s w c
        end.
 
+(* handleRecordContent, once the handshake is complete: the peer sends its alerts protected, so an
+   unprotected (epoch 0) alert is discarded - no mark, no reply, no close.  [recv] above is the
+   behaviour while the handshake runs; [recv_est true] the behaviour of an established connection. *)
+Definition unprotected_alert (w : wire) : bool :=
+  (w_epoch w =? 0) && match w_clear w with CAlert _ _ => true | _ => false end.
+
+Definition recv_est (est : bool) (W : nat) (lease : bool) (s : rstate) (w : wire) : rstate * list out :=
+  if est && unprotected_alert w then (s, []) else recv W lease s w.
+
 Inductive op :=
 | Arrive (w : wire)      (* a record read from the socket *)
 | InitCipher             (* keys installed by the handshake *)
